@@ -12,6 +12,12 @@
  *                "vp-model:" assertion (reported as a broken check, never
  *                truncated silently).
  * ldb_free    -> slabs are not recycled; other pointers go to free().
+ * -DVP_ALLOC_WRAPITERS=n: the one ldb_malloc(n * sizeof(ldb_wrapiter_t)) of
+ *                merger.c is served from a static, TYPED array.  Through the
+ *                plain malloc model the size expression n*sizeof(T) is folded
+ *                to a number, CBMC then creates a byte array and every pointer
+ *                field of the wrappers is stored in bytes (DESIGN R5: 14-22 M
+ *                clauses for a 3-entry merger query).
  *
  * Why: with the copy-on-grow model (vp_alloc.c) every symbolic "does it still
  * fit?" branch in ldb_buffer_grow creates a new heap object, so buffer
@@ -42,6 +48,12 @@ void ldb_free(void *ptr) { if (ptr != NULL) free(ptr); }
 
 #else
 
+#ifdef VP_ALLOC_WRAPITERS
+#include "table/iterator_wrapper.h"
+static ldb_wrapiter_t vp_wraps[VP_ALLOC_WRAPITERS];
+static int vp_wraps_used = 0;
+#endif
+
 #ifndef VP_SLAB
 #define VP_SLAB 32
 #endif
@@ -58,6 +70,13 @@ ldb_malloc(size_t size) {
   void *p;
   if (size > vp_alloc_max_request)
     vp_alloc_max_request = size;
+#ifdef VP_ALLOC_WRAPITERS
+  if (size == sizeof(vp_wraps)) {
+    __CPROVER_assert(!vp_wraps_used, "vp-model: typed wrapper array handed out once");
+    vp_wraps_used = 1;
+    return vp_wraps;
+  }
+#endif
   p = malloc(size);
   __CPROVER_assume(p != NULL);
   return p;
@@ -103,6 +122,10 @@ ldb_realloc(void *ptr, size_t size) {
 
 void
 ldb_free(void *ptr) {
+#ifdef VP_ALLOC_WRAPITERS
+  if (ptr != NULL && __CPROVER_same_object(ptr, vp_wraps))
+    return;
+#endif
   if (ptr != NULL && !vp_is_slab(ptr))
     free(ptr);
 }
